@@ -146,6 +146,9 @@ func c04r1(c *core.Ctx) {
 					return
 				}
 				for _, pt := range parts {
+					if core.CallResult(core.StripConv(pt), 0, func(ci ssa.Instruction) bool { return ci == h }) != nil {
+						res = true // the derived key passed by value (to a concatenation helper)
+					}
 					if a := allocOf(pt); a != nil {
 						for _, r := range *a.Referrers() {
 							if st, ok := r.(*ssa.Store); ok && st.Addr == ssa.Value(a) {
@@ -219,22 +222,25 @@ func c04r1(c *core.Ctx) {
 	if f := p.Func("crypto", "NewSecureSessionFromSharedKey"); f != nil {
 		for _, spec := range []struct{ fld, role string }{{"encryptKey", "session-accessory-to-controller"}, {"decryptKey", "session-controller-to-accessory"}} {
 			found := false
-			core.Instrs(f, func(i ssa.Instruction) {
-				st, ok := i.(*ssa.Store)
-				if !ok {
-					return
-				}
-				if _, ok := core.FieldAddrOf(st.Addr, tSecure, spec.fld); !ok {
-					return
-				}
-				for _, src := range core.Sources(st.Val) {
-					if call := core.CallResult(src, 0, func(ci ssa.Instruction) bool { return core.IsCall(ci, qHKDF) }); call != nil {
-						found = true
-						a := core.Args(call)
-						check(spec.role, call, a[1], a[2])
+			for _, b := range bodies(f) {
+				b := b
+				core.Instrs(b.fn, func(i ssa.Instruction) {
+					st, ok := i.(*ssa.Store)
+					if !ok {
+						return
 					}
-				}
-			})
+					if _, ok := core.FieldAddrOf(st.Addr, tSecure, spec.fld); !ok {
+						return
+					}
+					for _, src := range core.Sources(st.Val) {
+						if call := core.CallResult(src, 0, func(ci ssa.Instruction) bool { return core.IsCall(ci, qHKDF) }); call != nil {
+							found = true
+							a := core.Args(call)
+							check(spec.role, call, b.lift(a[1]), b.lift(a[2]))
+						}
+					}
+				})
+			}
 			if !found {
 				c.Bad("label:"+spec.role, f.Pos(), "no HKDF derivation stored to "+spec.fld)
 			}
@@ -341,7 +347,7 @@ func c04r2(c *core.Ctx) {
 	})
 	c.Check(sl == specSaltLen && instrBefore(f, "SaltLength", verifier), "srp-salt-length", f.Pos(), "16-byte salt, set before the verifier is computed", fmt.Sprintf("salt length %d (want 16) or set after ComputeVerifier", sl))
 	// password = pin parameter; identity of the session = "Pair-Setup"
-	pw := core.AnySource(verifier.Call.Args[1], func(s ssa.Value) bool { pr, ok := s.(*ssa.Parameter); return ok && pr.Name() == "pin" }) || func() bool {
+	pw := core.AnySource(verifier.Call.Args[1], func(s ssa.Value) bool { return len(f.Params) > 1 && s == ssa.Value(f.Params[1]) }) || func() bool {
 		if cv, ok := verifier.Call.Args[1].(*ssa.Convert); ok {
 			pr, ok := cv.X.(*ssa.Parameter)
 			return ok && pr == f.Params[1]
@@ -691,7 +697,7 @@ func c04r4(c *core.Ctx) {
 			if ok {
 				for _, pt := range parts {
 					switch {
-					case allocOf(pt) != nil && isHKDFAlloc(allocOf(pt)):
+					case allocOf(pt) != nil && isHKDFAlloc(allocOf(pt)) || core.CallResult(core.StripConv(pt), 0, func(ci ssa.Instruction) bool { return core.IsCall(ci, qHKDF) }) != nil:
 						desc = append(desc, "hkdf")
 					case core.AnySource(pt, func(s ssa.Value) bool { _, ok := core.FieldLoad(s, tSetupSess, "Username"); return ok }):
 						desc = append(desc, "accessory-id")
